@@ -326,3 +326,35 @@ package thrift
 //@   props C01, C03, C17
 //@   ensures len(buf) < 5 ==> err == errReadSet && l == 0
 //@   ensures len(buf) >= 5 ==> err == nil && l == 5 && et == int8(buf[0]) && size == int(vs.BE32(buf, 1))
+
+// ---- variable-length readers ----
+
+//@ func BinaryProtocol.ReadBinary
+//@   props C01, C03, C16, C17
+//@   let sz = int(int32(vs.BE32(buf, 0)))
+//@   ensures len(buf) < 4 ==> err == errReadBin && l == 0 && isnil(b)
+//@   ensures len(buf) >= 4 && sz < 0 ==> err == errNegativeSize && l == 0 && isnil(b)
+//@   ensures len(buf) >= 4 && sz >= 0 && len(buf) < 4+sz ==> err == errReadBin && l == 4 && isnil(b)
+//@   ensures len(buf) >= 4 && sz >= 0 && len(buf) >= 4+sz ==> err == nil && l == 4+sz && len(b) == sz && eqbytes(b, 0, buf, 4, sz)
+//@   ensures[C16] err == nil ==> fresh(b)
+
+//@ func BinaryProtocol.ReadString
+//@   props C01, C03, C16, C17
+//@   let sz = int(int32(vs.BE32(buf, 0)))
+//@   ensures len(buf) < 4 ==> err == errReadStr && l == 0 && len(s) == 0
+//@   ensures len(buf) >= 4 && sz < 0 ==> err == errNegativeSize && l == 0 && len(s) == 0
+//@   ensures len(buf) >= 4 && sz >= 0 && len(buf) < 4+sz ==> err == errReadStr && l == 4 && len(s) == 0
+//@   ensures len(buf) >= 4 && sz >= 0 && len(buf) >= 4+sz ==> err == nil && l == 4+sz && len(s) == sz && eqbytes(s, 0, buf, 4, sz)
+//@   ensures[C16] err == nil ==> fresh(s)
+
+//@ func BinaryProtocol.ReadMessageBegin
+//@   props C03, C12, C17
+//@   let hdr = vs.BE32(buf, 0)
+//@   let nsz = int(int32(vs.BE32(buf, 4)))
+//@   ensures len(buf) < 4 ==> err == errReadMessage && l == 0
+//@   ensures len(buf) >= 4 && hdr & 0xffff0000 != 0x80010000 ==> err == errBadVersion && l == 0
+//@   ensures len(buf) >= 4 && hdr & 0xffff0000 == 0x80010000 && len(buf) < 8 ==> err == errReadMessage && l == 0
+//@   ensures[C17] len(buf) >= 8 && hdr & 0xffff0000 == 0x80010000 && nsz < 0 ==> err == errNegativeSize && l == 0
+//@   ensures len(buf) >= 8 && hdr & 0xffff0000 == 0x80010000 && nsz >= 0 && len(buf) < 12+nsz ==> err == errReadMessage && l == 0
+//@   ensures len(buf) >= 8 && hdr & 0xffff0000 == 0x80010000 && nsz >= 0 && len(buf) >= 12+nsz ==>
+//@           err == nil && l == 12+nsz && typeID == int32(hdr & 0xffff) && len(name) == nsz && eqbytes(name, 0, buf, 8, nsz) && seq == int32(vs.BE32(buf, 8+nsz))
